@@ -188,6 +188,17 @@ fn call(f: &str, a: &[Value]) -> Value {
             Err(_) => json!({"variant":"Err","payload":[null]}),
         },
         "merkle_scenario" => merkle_scenario(a),
+        // PngIO::get_box_map on raw bytes: args = [file bytes (latin-1)]
+        "png_box_map" => {
+            use c2pa::verif_hooks::{png_io::PngIO, AssetBoxHash, AssetIO};
+            let data: Vec<u8> = s(&a[0]).chars().map(|c| c as u32 as u8).collect();
+            let mut cur = std::io::Cursor::new(data);
+            let h = PngIO::new("png");
+            match h.get_box_map(&mut cur) {
+                Ok(v) => json!({"variant":"Ok","payload":[v.iter().map(|b| json!({"range_start": b.range_start, "range_len": b.range_len, "name": b.names.first()})).collect::<Vec<_>>()]}),
+                Err(_) => json!({"variant":"Err","payload":[null]}),
+            }
+        }
         // BMFF header parsers on raw bytes: args = [data (latin-1), start position]
         "bmff_box_header" => {
             let data: Vec<u8> = s(&a[0]).chars().map(|c| c as u32 as u8).collect();
